@@ -64,7 +64,8 @@ Init == /\ seed \in {[name |-> s.name, dup |-> s.dup] : s \in Seeds}
 \* (simulation evaluates the constraint - and so would print - on EVERY candidate successor: a free session ends with one closing
 \*  step that has a single successor, and is printed there, once)
 Close == Shape = "free" /\ Hist /\ n = MaxSteps /\ n' = n + 1 /\ UNCHANGED <<S, S0, seed, prev, last, hist>>
-Next == (n < MaxSteps /\ \E st \in Offered : Do(st)) \/ Close
+Next == n < MaxSteps /\ \E st \in Offered : Do(st)
+NextSim == Next \/ Close
 
 \* ---- (1) the laws of a session, on the constructive level ------------------------------------------
 NewTab == S.tabs[Len(S.tabs)]
